@@ -965,17 +965,24 @@ func nestCase(stream, flav string, tag int, m interface{}, body []byte, failing 
 	}
 	// declared length beyond the buffer: rejected without invoking the nested decoder
 	if len(nb) > 2 {
-		cut := nb[:len(nb)-1]
-		if len(body) > 0 {
-			line, impl, _ := runDec(false, cut, 0, []dop{{typ: 'T'}, {typ: 'N', nestedOK: true}}, func(d dop, ob decObs, dec *csproto.Decoder) {
-				if d.typ == 'N' {
-					sink.OracleN++
-					if ob.class != "err" || ob.nested.calls != 0 {
-						fail("oracle", "declared length beyond the buffer not rejected before calling the nested decoder", hx.B(cut), "err, 0 calls", fmt.Sprintf("%s, %d calls", ob.class, ob.nested.calls), "nest-dec-overrun")
+		// ... in both modes, for a view with spare capacity behind it (the bytes are there, but not part of the input)
+		// and for a buffer that ends where the input ends
+		for vi, cut := range [][]byte{nb[:len(nb)-1], append(make([]byte, 0, len(nb)-1), nb[:len(nb)-1]...), nb[:len(nb)-1-r.Intn(min(len(body), 3))]} {
+			if len(body) == 0 {
+				break
+			}
+			for _, fast := range []bool{false, true} {
+				cut := cut
+				line, impl, _ := runDec(fast, cut, 0, []dop{{typ: 'T'}, {typ: 'N', nestedOK: true}}, func(d dop, ob decObs, dec *csproto.Decoder) {
+					if d.typ == 'N' {
+						sink.OracleN++
+						if ob.class != "err" || ob.nested.calls != 0 || ob.after > len(cut) {
+							fail("oracle", "declared length beyond the buffer not rejected before calling the nested decoder", fmt.Sprintf("%s fast=%v view=%d", hx.B(cut), fast, vi), "err, 0 calls", fmt.Sprintf("%s, %d calls, offset %d", ob.class, ob.nested.calls, ob.after), "nest-dec-overrun")
+						}
 					}
-				}
-			})
-			sink.Add(stream+"-overrun", line, impl, true)
+				})
+				sink.Add(stream+"-overrun", line, impl, true)
+			}
 		}
 	}
 }
